@@ -174,7 +174,7 @@ func (s *Storage) ReadURL(u *url.URL) ([]byte, error) {
 
 // ReadFile serves the library's os.ReadFile calls (via zzsimrt).
 func (s *Storage) ReadFile(name string) ([]byte, error, bool) {
-	loc := path.Clean(strings.ReplaceAll(name, "\\", "/"))
+	loc := path.Clean(name) // (a backslash is an ordinary character of a POSIX file name)
 	data, err, _ := s.read(loc, "os")
 	return data, err, true
 }
